@@ -2836,7 +2836,8 @@ func (x *c05OptWalk) leaves(v ssa.Value, path []int, stack []*ssa.Call, via []*s
 			if !isRet || k >= len(r.Results) {
 				continue
 			}
-			l, ok := x.leaves(r.Results[k], path, append(append([]*ssa.Call(nil), stack...), call), via, depth-1)
+			// the value is selected where the helper returns it (the block is in the helper's frame)
+			l, ok := x.leaves(r.Results[k], path, append(append([]*ssa.Call(nil), stack...), call), add(b), depth-1)
 			if !ok {
 				return nil, false
 			}
@@ -3217,6 +3218,99 @@ func c05OptionsForwarded(c *Ctx, R *ssa.Function, vcCall, vCall *ssa.Call) {
 				return true
 			}
 		}
+		// nilIn: control is at the end of block b of a helper only where the helper's options parameter's field feeding vf
+		// was tested nil; the parameter is marked as carrying the field (its call sites come under the forwarding rule).
+		nilIn := func(b *ssa.BasicBlock, vf int) bool {
+			var tested []ssa.Value
+			if !c05ReachedOnlyWithNil(b, func(y ssa.Value) bool {
+				if isSrc(vf)(y) {
+					tested = append(tested, y)
+					return true
+				}
+				return false
+			}) {
+				return false
+			}
+			for _, y := range tested {
+				ls, _ := srcMode().leaves(y, nil, nil, nil, 8)
+				for _, lf := range ls {
+					if p, isP := lf.v.(*ssa.Parameter); isP && len(lf.path) == 1 {
+						mark(p, lf.path[0])
+					}
+				}
+			}
+			return true
+		}
+		// verdictSaysNil: block b is reached only through the edge of a branch on the boolean result of a module
+		// helper, on which the result has a value that the helper returns only where it found its options parameter's
+		// field nil (a helper that adopts what the caller configured and reports whether it did: on its false edge the
+		// caller configured nothing). Every exit of the helper that may return that value is examined in the helper's
+		// frame; constant results of the other value are other exits.
+		verdictSaysNil := func(b *ssa.BasicBlock, vf int) bool {
+			for d := b; d != nil; d = d.Idom() {
+				id := d.Idom()
+				if id == nil {
+					break
+				}
+				iff, ok := blockTerm(id).(*ssa.If)
+				if !ok || len(id.Succs) != 2 || id.Succs[0] == id.Succs[1] || len(d.Preds) != 1 {
+					continue
+				}
+				cond, neg := iff.Cond, false
+				for {
+					u, isU := cond.(*ssa.UnOp)
+					if !isU || u.Op != token.NOT {
+						break
+					}
+					cond, neg = u.X, !neg
+				}
+				call, isCall := cond.(*ssa.Call)
+				if !isCall {
+					continue
+				}
+				h := staticCallee(call)
+				if h == nil || h.Blocks == nil || !w.IsProductFn(h) || !isBoolType(call.Type()) {
+					continue
+				}
+				for si, s := range id.Succs {
+					if s != d {
+						continue
+					}
+					val := (si == 0) != neg // the helper's result on the edge into d
+					nExits, all := 0, true
+					for _, hb := range h.Blocks {
+						r, isRet := blockTerm(hb).(*ssa.Return)
+						if !isRet || len(r.Results) != 1 {
+							continue
+						}
+						type exit struct {
+							v  ssa.Value
+							at *ssa.BasicBlock
+						}
+						exits := []exit{{r.Results[0], hb}}
+						if p, isPhi := r.Results[0].(*ssa.Phi); isPhi && p.Block() == hb {
+							exits = exits[:0]
+							for i, e := range p.Edges {
+								exits = append(exits, exit{e, hb.Preds[i]})
+							}
+						}
+						for _, e := range exits {
+							if k, isK := e.v.(*ssa.Const); isK && k.Value != nil && k.Value.Kind() == constant.Bool && constant.BoolVal(k.Value) != val {
+								continue
+							}
+							nExits++
+							if !nilIn(e.at, vf) {
+								all = false
+							}
+						}
+					}
+					if all && nExits > 0 {
+						return true
+					}
+				}
+			}
+			return false
+		}
 		// control is in one of the blocks only after both nil tests — or the function is entered only from such places
 		var guardedAt func(fn *ssa.Function, blocks []*ssa.BasicBlock, depth int) bool
 		guardedAt = func(fn *ssa.Function, blocks []*ssa.BasicBlock, depth int) bool {
@@ -3224,7 +3318,18 @@ func c05OptionsForwarded(c *Ctx, R *ssa.Function, vcCall, vCall *ssa.Call) {
 			for _, vf := range []int{f1, f2} {
 				g := false
 				for _, b := range blocks {
-					if b.Parent() == fn && c05ReachedOnlyWithNil(b, isSrc(vf)) {
+					if b.Parent() == fn {
+						if c05ReachedOnlyWithNil(b, isSrc(vf)) || verdictSaysNil(b, vf) {
+							g = true
+						}
+						continue
+					}
+					// A block of a helper the stored value was selected in (the helper chooses the validator, the
+					// storing function stores what it returns): the helper's own options parameter was tested nil in
+					// the invocation whose result is stored. That parameter holds the caller's options only if the
+					// call sites hand them on: the parameter is marked as carrying the tested field, which puts the
+					// calls of the helper under the forwarding rule (2).
+					if nilIn(b, vf) {
 						g = true
 					}
 				}
@@ -3447,4 +3552,514 @@ func c05SortInts(s []int) {
 			s[j], s[j-1] = s[j-1], s[j]
 		}
 	}
+}
+
+// ---- constructor/<fn> composed through helpers ---------------------------------------------------
+//
+// constructor/<fn> says: a function that configures the code-signing revocation fields of a verifier cannot succeed
+// without having put a non-nil validator or client into one of them. It is decided on *store points*: places such that
+// control that has passed them has stored a non-nil value into one of the two fields. With the edges into the store
+// points removed no success exit may remain reachable. A store point is
+//
+//   (1) a store of a value that is provably non-nil where it is stored (a nil test dominates it, a conversion, …), or of
+//       the value of a call into a dependency whose error was found nil on every path to the store (the constructor of
+//       the default validator; trusted to return a validator with a nil error), or a phi of such values;
+//   (2) a store of the k-th result of a module function h after h's error was found nil, when on every exit of h that
+//       can carry a nil error the k-th result is such a value in h's frame (c05Ctor.retNonNil): the helper chooses or
+//       builds the validator, the caller stores it. For two stores of two results of one call into the two fields (the
+//       helper returns the pair validator / client) it is enough that on every such exit one of the two is non-nil: the
+//       store point is where both stores have been executed;
+//   (3) a call of a module function g that hands g a verifier (receiver or argument i), when every success exit of g has
+//       passed a store point of g that stores into that very parameter (c05Ctor.sum(g, i).always): the store point is
+//       the edge on which the call's error is found nil, and a return that forwards the call's error is no success exit
+//       of its own (it succeeds iff g did, and then g has stored); for a g without an error result that has passed a
+//       store point on every path to every return, the store point is the call itself. A store of g's own parameter's
+//       value counts in g when the argument of the call is provably non-nil at the call.
+//
+// The obligation is raised for every function that stores the fields itself or calls a module function that stores them
+// into a verifier it is handed: with the stores moved into helpers the function that chooses between them is still
+// held to the rule. What is not recognised (an error carried through a variable to a later test, a closure) is no
+// store point: the alarm stays.
+
+type c05CtorKey struct {
+	fn *ssa.Function
+	i  int
+}
+
+type c05CtorSum struct {
+	configures bool         // fn stores the fields into parameter i (itself or through what it calls with it)
+	always     bool         // every success exit (every return of a function without error result) has passed a store point into parameter i
+	need       map[int]bool // parameters of fn assumed non-nil by the store points counted (judged at the call)
+	// for a function whose single result is a boolean: every exit that can return false / true has passed a store point
+	alwaysBool [2]bool
+}
+
+type c05Ctor struct {
+	w      *World
+	t      string
+	f1, f2 int
+	memo   map[c05CtorKey]*c05CtorSum
+	busy   map[c05CtorKey]bool
+	retM   map[string]int
+}
+
+func c05HasErrResult(fn *ssa.Function) bool {
+	n := fn.Signature.Results().Len()
+	return n > 0 && isErrorType(fn.Signature.Results().At(n-1).Type())
+}
+
+func c05CutInto(b *ssa.BasicBlock, cut map[edgeKey]bool) {
+	for _, p := range b.Preds {
+		for j, s := range p.Succs {
+			if s == b {
+				cut[edgeKey{p.Index, j}] = true
+			}
+		}
+	}
+}
+
+// guards: the facts that hold on every path from the entry to block b.
+func c05BlockGuards(fi *FnInfo, b *ssa.BasicBlock) map[string]string {
+	if len(b.Instrs) == 0 {
+		return nil
+	}
+	return fi.GuardsOf(b.Instrs[0])
+}
+
+// errChecked: the call has no error result, or its error was found nil on every path to block b.
+func c05ErrChecked(fi *FnInfo, call *ssa.Call, b *ssa.BasicBlock) bool {
+	var last types.Type
+	switch t := call.Type().(type) {
+	case *types.Tuple:
+		if t.Len() == 0 {
+			return true
+		}
+		last = t.At(t.Len() - 1).Type()
+	default:
+		last = t
+	}
+	if !isErrorType(last) {
+		return true
+	}
+	return labelHas(c05BlockGuards(fi, b), "EQ("+descTailErr(call)+",nil)")
+}
+
+func c05ResultIndex(v ssa.Value) int {
+	if e, ok := v.(*ssa.Extract); ok {
+		return e.Index
+	}
+	return 0
+}
+
+// good: v is a non-nil validator / client when control is in block b (clauses 1 and 2). need collects the parameters
+// of the function assumed non-nil (only when params is set).
+func (x *c05Ctor) good(fi *FnInfo, v ssa.Value, b *ssa.BasicBlock, params bool, need map[int]bool, depth int) bool {
+	if fi.nonNil(v, b) {
+		return true
+	}
+	if depth <= 0 {
+		return false
+	}
+	switch y := v.(type) {
+	case *ssa.Parameter:
+		if i := c05ParamIndex(y); params && i >= 0 && y.Parent() == fi.Fn {
+			need[i] = true
+			return true
+		}
+	case *ssa.ChangeInterface:
+		return x.good(fi, y.X, b, params, need, depth)
+	case *ssa.Phi:
+		for i, e := range y.Edges {
+			if e == v {
+				continue
+			}
+			if !x.good(fi, e, y.Block().Preds[i], params, need, depth-1) {
+				return false
+			}
+		}
+		return len(y.Edges) > 0
+	case *ssa.Call, *ssa.Extract:
+		call := callOf(v)
+		if call == nil || !c05ErrChecked(fi, call, b) {
+			return false
+		}
+		if g := staticCallee(call); g != nil && g.Blocks != nil && x.w.IsProductFn(g) {
+			return x.retNonNil(g, []int{c05ResultIndex(v)}, depth-1)
+		}
+		// a call out of the module: the value of a constructor whose error was checked
+		_, isExtract := v.(*ssa.Extract)
+		return isExtract && isErrorType(lastResultType(call))
+	}
+	return false
+}
+
+func lastResultType(call *ssa.Call) types.Type {
+	if t, ok := call.Type().(*types.Tuple); ok {
+		if t.Len() == 0 {
+			return nil
+		}
+		return t.At(t.Len() - 1).Type()
+	}
+	return call.Type()
+}
+
+// retNonNil: on every exit of the module function h that can carry a nil error (every exit, if h has no error result)
+// one of the results ks is a non-nil value in h's frame: provably non-nil, or the value of a call whose error is the
+// error h returns on that exit / was found nil on every path to it (a dependency's constructor, or a module function
+// of which the same holds).
+func (x *c05Ctor) retNonNil(h *ssa.Function, ks []int, depth int) bool {
+	key := fmt.Sprintf("%p|%v", h, ks)
+	if r, ok := x.retM[key]; ok {
+		return r == 1 // in progress: no
+	}
+	x.retM[key] = 0
+	r := x.retNonNil1(h, ks, depth)
+	if r {
+		x.retM[key] = 1
+	} else {
+		x.retM[key] = 2
+	}
+	return r
+}
+
+func (x *c05Ctor) retNonNil1(h *ssa.Function, ks []int, depth int) bool {
+	if depth <= 0 {
+		return false
+	}
+	fi := x.w.Info(h)
+	hasErr := c05HasErrResult(h)
+	nret := 0
+	for _, b := range h.Blocks {
+		r, ok := blockTerm(b).(*ssa.Return)
+		if !ok {
+			continue
+		}
+		nret++
+		// the exits of this return: one per incoming edge when an operand is a phi of the return block
+		edges := []int{-1}
+		for _, v := range r.Results {
+			if p, ok := v.(*ssa.Phi); ok && p.Block() == b {
+				edges = edges[:0]
+				for i := range b.Preds {
+					edges = append(edges, i)
+				}
+				break
+			}
+		}
+		for _, ei := range edges {
+			at := b
+			pick := func(v ssa.Value) ssa.Value {
+				if p, ok := v.(*ssa.Phi); ok && p.Block() == b && ei >= 0 {
+					return p.Edges[ei]
+				}
+				return v
+			}
+			if ei >= 0 {
+				at = b.Preds[ei]
+			}
+			var ev ssa.Value
+			if hasErr {
+				ev = pick(r.Results[len(r.Results)-1])
+				if !isNilConst(ev) && fi.nonNil(ev, at) {
+					continue // a failing exit
+				}
+			}
+			okExit := false
+			for _, k := range ks {
+				if k >= len(r.Results) {
+					return false
+				}
+				v := pick(r.Results[k])
+				if fi.nonNil(v, at) {
+					okExit = true
+					break
+				}
+				call := callOf(v)
+				if call == nil {
+					continue
+				}
+				// the error of the call is what this exit returns as its error, or was found nil before
+				forwarded := ev != nil && callOf(ev) == call && isErrorType(ev.Type()) && ev != v
+				if !forwarded && !c05ErrChecked(fi, call, at) {
+					continue
+				}
+				if g := staticCallee(call); g != nil && g.Blocks != nil && x.w.IsProductFn(g) {
+					if x.retNonNil(g, []int{c05ResultIndex(v)}, depth-1) {
+						okExit = true
+						break
+					}
+					continue
+				}
+				if _, isExtract := v.(*ssa.Extract); isExtract && isErrorType(lastResultType(call)) {
+					okExit = true
+					break
+				}
+			}
+			if !okExit {
+				return false
+			}
+		}
+	}
+	return nret > 0
+}
+
+// isField: st stores into one of the two fields; base: the object (canonical pointer).
+func (x *c05Ctor) isField(st *ssa.Store) (base ssa.Value, field int, ok bool) {
+	fa, isFA := st.Addr.(*ssa.FieldAddr)
+	if !isFA || namedOf(fa.X.Type()) != x.t || (fa.Field != x.f1 && fa.Field != x.f2) {
+		return nil, -1, false
+	}
+	return canonPtr(fa.X), fa.Field, true
+}
+
+type c05Points struct {
+	cut      map[edgeKey]bool
+	tails    map[*ssa.Call]bool
+	entry    bool // a store point lies in the entry block: every path has passed it
+	need     map[int]bool
+	stores   bool // a store of the fields / a call of a function that stores them was seen (whatever its value)
+	okVals   bool
+	nPoints  int
+	calledFn []*ssa.Function
+}
+
+// points: the store points of fn. sel restricts them to stores into (calls that hand on) the object sel accepts
+// (nil: any object); params: a store of fn's own parameter's value counts, the parameter is recorded in need.
+func (x *c05Ctor) points(fn *ssa.Function, sel func(ssa.Value) bool, params bool) *c05Points {
+	fi := x.w.Info(fn)
+	pt := &c05Points{cut: map[edgeKey]bool{}, tails: map[*ssa.Call]bool{}, need: map[int]bool{}, okVals: true}
+	at := func(b *ssa.BasicBlock) {
+		pt.nPoints++
+		if b.Index == 0 {
+			pt.entry = true
+			return
+		}
+		c05CutInto(b, pt.cut)
+	}
+	type pending struct {
+		st   *ssa.Store
+		base ssa.Value
+		f    int
+	}
+	var open []pending
+	for _, b := range fn.Blocks {
+		for _, in := range b.Instrs {
+			switch y := in.(type) {
+			case *ssa.Store:
+				base, f, ok := x.isField(y)
+				if !ok {
+					continue
+				}
+				if sel != nil && !sel(base) {
+					continue
+				}
+				pt.stores = true
+				if x.good(fi, y.Val, b, params, pt.need, 4) {
+					at(b)
+				} else {
+					pt.okVals = false
+					open = append(open, pending{y, base, f})
+				}
+			case *ssa.Call:
+				g := staticCallee(y)
+				if g == nil || g.Blocks == nil || !x.w.IsProductFn(g) || len(y.Call.Args) != len(g.Params) {
+					continue
+				}
+				for i, a := range y.Call.Args {
+					if namedOf(a.Type()) != x.t {
+						continue
+					}
+					if sel != nil && !sel(canonPtr(a)) {
+						continue
+					}
+					s := x.sum(g, i)
+					if !s.configures {
+						continue
+					}
+					pt.stores = true
+					pt.calledFn = append(pt.calledFn, g)
+					argsOK := true
+					for q := range s.need {
+						if q >= len(y.Call.Args) || !fi.nonNil(y.Call.Args[q], b) {
+							argsOK = false
+						}
+					}
+					if !argsOK {
+						continue
+					}
+					// a helper that reports by a boolean what it did: the edges on which the call's result is the value
+					// that every exit of the helper returns only after a store point
+					if s.alwaysBool[0] || s.alwaysBool[1] {
+						for _, bb := range fn.Blocks {
+							iff, ok := blockTerm(bb).(*ssa.If)
+							if !ok || len(bb.Succs) != 2 {
+								continue
+							}
+							cond, neg := iff.Cond, false
+							for {
+								u, isU := cond.(*ssa.UnOp)
+								if !isU || u.Op != token.NOT {
+									break
+								}
+								cond, neg = u.X, !neg
+							}
+							if cond != ssa.Value(y) {
+								continue
+							}
+							for j := 0; j < 2; j++ {
+								val := (j == 0) != neg // the call's result on this edge
+								if (val && s.alwaysBool[1]) || (!val && s.alwaysBool[0]) {
+									pt.cut[edgeKey{bb.Index, j}] = true
+									pt.nPoints++
+								}
+							}
+						}
+						continue
+					}
+					if !s.always {
+						continue
+					}
+					if !c05HasErrResult(g) {
+						at(b)
+						continue
+					}
+					// the edges on which this call's error is found nil; a return that forwards it
+					errVals := map[ssa.Value]bool{}
+					if isErrorType(y.Type()) {
+						errVals[y] = true
+					} else if refs := y.Referrers(); refs != nil {
+						n := g.Signature.Results().Len()
+						for _, r := range *refs {
+							if e, ok := r.(*ssa.Extract); ok && e.Index == n-1 {
+								errVals[e] = true
+							}
+						}
+					}
+					for _, bb := range fn.Blocks {
+						iff, ok := blockTerm(bb).(*ssa.If)
+						if !ok || len(bb.Succs) != 2 {
+							continue
+						}
+						for j := 0; j < 2; j++ {
+							if v := c05NilTested(iff.Cond, j == 0); v != nil && errVals[v] {
+								pt.cut[edgeKey{bb.Index, j}] = true
+								pt.nPoints++
+							}
+						}
+					}
+					pt.tails[y] = true
+				}
+			}
+		}
+	}
+	// clause 2, the pair: two results of one call of a module helper stored into the two fields of one object
+	for i := 0; i < len(open); i++ {
+		for j := 0; j < len(open); j++ {
+			a, b := open[i], open[j]
+			if i == j || a.f == b.f || a.base != b.base {
+				continue
+			}
+			ca, cb := callOf(a.st.Val), callOf(b.st.Val)
+			if ca == nil || ca != cb {
+				continue
+			}
+			g := staticCallee(ca)
+			if g == nil || g.Blocks == nil || !x.w.IsProductFn(g) {
+				continue
+			}
+			// b is executed after a on every path: the point is where b has been executed
+			if !c05Before(a.st, b.st) || !c05ErrChecked(fi, ca, a.st.Block()) {
+				continue
+			}
+			if _, isE := a.st.Val.(*ssa.Extract); !isE {
+				continue
+			}
+			if _, isE := b.st.Val.(*ssa.Extract); !isE {
+				continue
+			}
+			if x.retNonNil(g, []int{c05ResultIndex(a.st.Val), c05ResultIndex(b.st.Val)}, 4) && !c05StoredBetween(x, a.st, b.st) {
+				at(b.st.Block())
+			}
+		}
+	}
+	return pt
+}
+
+// c05StoredBetween: another store into the field a writes lies in the blocks of a and b (the pair rule reads the two
+// stores as one assignment; it is applied only when they are not interleaved with other writes of the same field).
+func c05StoredBetween(x *c05Ctor, a, b *ssa.Store) bool {
+	for _, blk := range []*ssa.BasicBlock{a.Block(), b.Block()} {
+		for _, in := range blk.Instrs {
+			st, ok := in.(*ssa.Store)
+			if !ok || st == a || st == b {
+				continue
+			}
+			if _, f, isF := x.isField(st); isF {
+				fa := a.Addr.(*ssa.FieldAddr)
+				if f == fa.Field && c05Before(a, st) {
+					return true
+				}
+			}
+		}
+	}
+	return false
+}
+
+// succeedsWithout: a path from the entry to a success exit (mErr), or to any return of a function without an error
+// result, that passes no store point.
+func (x *c05Ctor) succeedsWithout(fn *ssa.Function, pt *c05Points) []string {
+	if pt.entry {
+		return nil
+	}
+	fi := x.w.Info(fn)
+	if c05HasErrResult(fn) {
+		old := fi.ignoreTail
+		fi.ignoreTail = pt.tails
+		wit := fi.successWitness(Mode{Kind: mErr}, entryState(), pt.cut)
+		fi.ignoreTail = old
+		return wit
+	}
+	seen := map[int]bool{0: true}
+	work := []*ssa.BasicBlock{fn.Blocks[0]}
+	for len(work) > 0 {
+		b := work[len(work)-1]
+		work = work[:len(work)-1]
+		if _, isRet := blockTerm(b).(*ssa.Return); isRet {
+			return []string{fmt.Sprintf("b%d %s", b.Index, fi.blockPos(b))}
+		}
+		for j, s := range b.Succs {
+			if pt.cut[edgeKey{b.Index, j}] || seen[s.Index] {
+				continue
+			}
+			seen[s.Index] = true
+			work = append(work, s)
+		}
+	}
+	return nil
+}
+
+// sum: what a caller may assume of a call of fn that hands it a verifier as parameter i.
+func (x *c05Ctor) sum(fn *ssa.Function, i int) *c05CtorSum {
+	k := c05CtorKey{fn, i}
+	if s, ok := x.memo[k]; ok {
+		return s
+	}
+	if x.busy[k] || i < 0 || i >= len(fn.Params) || len(fn.Blocks) == 0 {
+		return &c05CtorSum{}
+	}
+	x.busy[k] = true
+	defer delete(x.busy, k)
+	p := fn.Params[i]
+	pt := x.points(fn, func(base ssa.Value) bool { return base == ssa.Value(p) }, true)
+	s := &c05CtorSum{configures: pt.stores, need: pt.need}
+	if res := fn.Signature.Results(); pt.stores && pt.nPoints > 0 && res.Len() == 1 && isBoolType(res.At(0).Type()) {
+		fi := x.w.Info(fn)
+		for k, want := range []bool{false, true} {
+			s.alwaysBool[k] = pt.entry || fi.successWitness(Mode{Kind: mBool, Want: want}, entryState(), pt.cut) == nil
+		}
+	} else if pt.stores && pt.nPoints > 0 {
+		s.always = x.succeedsWithout(fn, pt) == nil
+	}
+	x.memo[k] = s
+	return s
 }
